@@ -13,10 +13,13 @@ package main
 
 import (
 	"fmt"
+	"os"
+	"path/filepath"
 	"strings"
 
 	"github.com/evanw/esbuild/internal/ast"
 	"github.com/evanw/esbuild/internal/js_ast"
+	"github.com/evanw/esbuild/pkg/api"
 	. "github.com/evanw/esbuild/verifharness/hlib"
 )
 
@@ -174,67 +177,8 @@ func (g *tgen) plain(depth int) ptree {
 		}
 		g.n("plain:object")
 		return ptree{mk(&js_ast.EObject{Properties: ps}), "(EObject " + clist(cs) + ")", "({" + strings.Join(ss, ", ") + "})"}
-	case k >= 94 && k < 96: // class expression: heritage, computed / literal keys, static and instance fields, static blocks
-		c := js_ast.Class{UseDefineForClassFields: true}
-		extC, extS := "None", ""
-		switch r.Intn(4) { // (esbuild's concession: the heritage must be a constructor or null, so only those)
-		case 0:
-			c.ExtendsOrNil, extC, extS = mk(&js_ast.EFunction{}), "(Some EFunction)", " extends (function () {})"
-		case 1:
-			c.ExtendsOrNil, extC, extS = mk(js_ast.ENullShared), "(Some ENull)", " extends null"
-		}
-		var cs, ss []string
-		for q := r.Range(1, 3); q > 0; q-- {
-			switch r.Intn(3) {
-			case 0: // static block
-				var stc, sts []string
-				var stmts []js_ast.Stmt
-				for w := r.Range(1, 2); w > 0; w-- {
-					if r.Bool() {
-						x := g.plain(d)
-						stmts = append(stmts, js_ast.Stmt{Data: &js_ast.SExpr{Value: x.e}})
-						stc = append(stc, "(SExpr "+x.coq+" false)")
-						sts = append(sts, "("+x.src+");")
-					} else {
-						dv, iv := g.plain(d), g.plain(d)
-						g.size++
-						nm := fmt.Sprintf("q%d", g.size)
-						stmts = append(stmts, js_ast.Stmt{Data: &js_ast.SLocal{Decls: []js_ast.Decl{{
-							Binding:    js_ast.Binding{Data: &js_ast.BArray{Items: []js_ast.ArrayBinding{{Binding: js_ast.Binding{Data: &js_ast.BIdentifier{}}, DefaultValueOrNil: dv.e}}}},
-							ValueOrNil: mk(&js_ast.EArray{Items: []js_ast.Expr{iv.e}})}}}})
-						stc = append(stc, "(SLocal LVar [DDecl (BArray [BItem BIdent (Some "+dv.coq+")]) (Some (EArray ["+iv.coq+"]))])")
-						sts = append(sts, "var ["+nm+" = ("+dv.src+")] = [("+iv.src+")];")
-					}
-				}
-				c.Properties = append(c.Properties, js_ast.Property{Kind: js_ast.PropertyClassStaticBlock, ClassStaticBlock: &js_ast.ClassStaticBlock{Block: js_ast.SBlock{Stmts: stmts}}})
-				cs = append(cs, "(PProp KStaticBlock false false false false ENull None None "+clist(stc)+")")
-				ss = append(ss, "static { "+strings.Join(sts, " ")+" }")
-			default: // field
-				static, computed := r.Bool(), r.Chance(40)
-				v := g.plain(d)
-				p := js_ast.Property{Kind: js_ast.PropertyField, InitializerOrNil: v.e}
-				keyC, keyS := "", ""
-				if computed {
-					key := g.plain(d)
-					p.Flags |= js_ast.PropertyIsComputed
-					p.Key, keyC, keyS = key.e, key.coq, "[("+key.src+")]"
-				} else {
-					g.size++
-					ke, kc := strLit(fmt.Sprintf("f%d", g.size))
-					p.Key, keyC, keyS = ke, kc, fmt.Sprintf("f%d", g.size)
-				}
-				st := ""
-				if static {
-					p.Flags |= js_ast.PropertyIsStatic
-					st = "static "
-				}
-				c.Properties = append(c.Properties, p)
-				cs = append(cs, fmt.Sprintf("(PProp KField %s %s false false %s None (Some %s) [])", cb(computed), cb(static), keyC, v.coq))
-				ss = append(ss, st+keyS+" = ("+v.src+");")
-			}
-		}
-		g.n("plain:class")
-		return ptree{mk(&js_ast.EClass{Class: c}), "(EClass (CClass false " + extC + " " + clist(cs) + " true))", "(class" + extS + " { " + strings.Join(ss, " ") + " })"}
+	case k >= 94 && k < 96: // class expression: heritage, computed / literal keys, static and instance fields, auto-accessors, static blocks
+		return g.pclass(d)
 	case k < 97:
 		t := g.plain(d)
 		if r.Bool() {
@@ -254,6 +198,73 @@ func (g *tgen) plain(depth int) ptree {
 		g.n("plain:new")
 		return ptree{mk(&js_ast.ENew{Target: t.e, Args: []js_ast.Expr{a.e}}), "(ENew " + t.coq + " [" + a.coq + "] false)", "new (" + t.src + ")((" + a.src + "))"}
 	}
+}
+
+// a class expression: heritage, computed / literal keys, static and instance
+// fields, auto-accessors (static / instance, private, computed key), static blocks
+func (g *tgen) pclass(d int) ptree {
+	r := g.r
+	mk := func(dd js_ast.E) js_ast.Expr { return js_ast.Expr{Data: dd} }
+	c := js_ast.Class{UseDefineForClassFields: true}
+	extC, extS := "None", ""
+	switch r.Intn(4) { // (esbuild's concession: the heritage must be a constructor or null, so only those)
+	case 0:
+		c.ExtendsOrNil, extC, extS = mk(&js_ast.EFunction{}), "(Some EFunction)", " extends (function () {})"
+	case 1:
+		c.ExtendsOrNil, extC, extS = mk(js_ast.ENullShared), "(Some ENull)", " extends null"
+	}
+	var cs, ss []string
+	for q := r.Range(1, 3); q > 0; q-- {
+		switch r.Intn(3) {
+		case 0: // static block
+			var stc, sts []string
+			var stmts []js_ast.Stmt
+			for w := r.Range(1, 2); w > 0; w-- {
+				if r.Bool() {
+					x := g.plain(d)
+					stmts = append(stmts, js_ast.Stmt{Data: &js_ast.SExpr{Value: x.e}})
+					stc = append(stc, "(SExpr "+x.coq+" false)")
+					sts = append(sts, "("+x.src+");")
+				} else {
+					dv, iv := g.plain(d), g.plain(d)
+					g.size++
+					nm := fmt.Sprintf("q%d", g.size)
+					stmts = append(stmts, js_ast.Stmt{Data: &js_ast.SLocal{Decls: []js_ast.Decl{{
+						Binding:    js_ast.Binding{Data: &js_ast.BArray{Items: []js_ast.ArrayBinding{{Binding: js_ast.Binding{Data: &js_ast.BIdentifier{}}, DefaultValueOrNil: dv.e}}}},
+						ValueOrNil: mk(&js_ast.EArray{Items: []js_ast.Expr{iv.e}})}}}})
+					stc = append(stc, "(SLocal LVar [DDecl (BArray [BItem BIdent (Some "+dv.coq+")]) (Some (EArray ["+iv.coq+"]))])")
+					sts = append(sts, "var ["+nm+" = ("+dv.src+")] = [("+iv.src+")];")
+				}
+			}
+			c.Properties = append(c.Properties, js_ast.Property{Kind: js_ast.PropertyClassStaticBlock, ClassStaticBlock: &js_ast.ClassStaticBlock{Block: js_ast.SBlock{Stmts: stmts}}})
+			cs = append(cs, "(PProp KStaticBlock false false false false ENull None None "+clist(stc)+")")
+			ss = append(ss, "static { "+strings.Join(sts, " ")+" }")
+		default: // field
+			static, computed := r.Bool(), r.Chance(40)
+			v := g.plain(d)
+			p := js_ast.Property{Kind: js_ast.PropertyField, InitializerOrNil: v.e}
+			keyC, keyS := "", ""
+			if computed {
+				key := g.plain(d)
+				p.Flags |= js_ast.PropertyIsComputed
+				p.Key, keyC, keyS = key.e, key.coq, "[("+key.src+")]"
+			} else {
+				g.size++
+				ke, kc := strLit(fmt.Sprintf("f%d", g.size))
+				p.Key, keyC, keyS = ke, kc, fmt.Sprintf("f%d", g.size)
+			}
+			st := ""
+			if static {
+				p.Flags |= js_ast.PropertyIsStatic
+				st = "static "
+			}
+			c.Properties = append(c.Properties, p)
+			cs = append(cs, fmt.Sprintf("(PProp KField %s %s false false %s None (Some %s) [])", cb(computed), cb(static), keyC, v.coq))
+			ss = append(ss, st+keyS+" = ("+v.src+");")
+		}
+	}
+	g.n("plain:class")
+	return ptree{mk(&js_ast.EClass{Class: c}), "(EClass (CClass false " + extC + " " + clist(cs) + " true))", "(class" + extS + " { " + strings.Join(ss, " ") + " })"}
 }
 
 // forms that must reach every case of KnownPrimitiveType with an operand of
@@ -393,6 +404,140 @@ func tiePlain(r *Rng, st *Stats, cf *CoqFile, g *tgen, ctx js_ast.HelperContext,
 			st.Fail("removable-expression-has-effect", map[string]interface{}{"expression": srcs[i], "bindings": plainPrelude,
 				"program": "const unused = " + srcs[i] + ";  // unused top-level declaration: ExprCanBeRemovedIfUnused(initialiser) = true"},
 				res2[k].String(), "empty probe log and no exception")
+		}
+	}
+}
+
+// classPrograms: class trees the REAL classifier calls removable become an
+// unused class in a module that binds the identifiers to objects with
+// observable toString/valueOf/getters; the module is bundled with tree shaking
+// on and off for every target (lowering of class fields / accessors / static
+// blocks changes what the linker's re-check sees) and executed in Node:
+// the two bundles must agree, and the kept class must log nothing.
+func classPrograms(r *Rng, st *Stats, cf *CoqFile, g *tgen, ctx js_ast.HelperContext, n int) {
+	root, err := os.MkdirTemp("", "verif-c04-cls-")
+	if err != nil {
+		panic(err)
+	}
+	defer os.RemoveAll(root)
+	type tgt struct {
+		name    string
+		target  api.Target
+		engines []api.Engine
+	}
+	targets := []tgt{{"esnext", api.ESNext, nil}, {"es2022", api.ES2022, nil}, {"es2020", api.ES2020, nil},
+		{"safari14", api.DefaultTarget, []api.Engine{{Name: api.EngineSafari, Version: "14"}}}}
+	type job struct {
+		src, target string
+		on, off     int
+		bundleOn    string
+	}
+	var jobs []job
+	var progs []string
+	var classItems []string
+	made := 0
+	for i := 0; i < n && made < 24; i++ {
+		t := g.pclass(r.Range(1, 2))
+		got := ctx.ExprCanBeRemovedIfUnused(t.e)
+		classItems = append(classItems, fmt.Sprintf("(%s, %s)", t.coq, cb(got)))
+		st.Note("classifier-plain-class", t.coq, got)
+		if !got {
+			continue
+		}
+		made++
+		form := "const unusedClass = " + t.src + ";"
+		if r.Bool() {
+			form = t.src + ";"
+		}
+		src := strings.TrimSpace(plainPrelude) + "\n" + form + "\n$p(\"end\");\n"
+		dir := filepath.Join(root, fmt.Sprintf("k%d", i))
+		os.MkdirAll(dir, 0o755)
+		if err := os.WriteFile(filepath.Join(dir, "m0.js"), []byte(src), 0o644); err != nil {
+			panic(err)
+		}
+		for _, tg := range targets {
+			j := job{src: src, target: tg.name, on: -1, off: -1}
+			ok := true
+			for _, ts := range []api.TreeShaking{api.TreeShakingTrue, api.TreeShakingFalse} {
+				res := api.Build(api.BuildOptions{AbsWorkingDir: dir, EntryPoints: []string{"m0.js"}, Bundle: true, Write: false, Outfile: "out.js",
+					Format: api.FormatIIFE, TreeShaking: ts, Target: tg.target, Engines: tg.engines, LogLevel: api.LogLevelSilent})
+				if len(res.Errors) > 0 || len(res.OutputFiles) != 1 {
+					st.Histogram["class-program-rejected"]++
+					st.Extra["class-program-rejected-example"] = src + " // " + fmt.Sprint(res.Errors)
+					ok = false
+					break
+				}
+				if ts == api.TreeShakingTrue {
+					j.on = len(progs)
+					j.bundleOn = string(res.OutputFiles[0].Contents)
+				} else {
+					j.off = len(progs)
+				}
+				progs = append(progs, string(res.OutputFiles[0].Contents))
+			}
+			if ok {
+				jobs = append(jobs, j)
+			}
+		}
+	}
+	cf.AddCases("plain_class_cases", "node * bool", "check_expr", classItems)
+	if len(progs) == 0 {
+		return
+	}
+	res, err := RunNodeScripts(progs, 8000)
+	if err != nil {
+		st.Fail("node-oracle-unavailable", err.Error(), nil, nil)
+		return
+	}
+	bad := func(x NodeResult) bool {
+		e := x.Err()
+		return e == "TIMEOUT" || strings.HasPrefix(e, "HARNESS:")
+	}
+	type verdict struct {
+		what string
+		j    job
+		got  string
+		exp  string
+	}
+	judge := func(res []NodeResult, j job, on, off int) *verdict {
+		a, b := res[on], res[off]
+		if bad(a) || bad(b) {
+			return nil
+		}
+		if (a.Err() == "SyntaxError" && len(a.Log) == 0) || (b.Err() == "SyntaxError" && len(b.Log) == 0) {
+			// at esnext esbuild keeps syntax (the `accessor` keyword) that Node 20 cannot parse
+			st.Histogram["class-program-node-cannot-parse"]++
+			return nil
+		}
+		if !a.Same(b) {
+			return &verdict{"treeshaking-changes-behaviour", j, a.String(), b.String()}
+		}
+		if b.Err() != "" || len(b.Log) != 1 {
+			return &verdict{"removable-class-has-effect", j, b.String(), "only the final probe: a class the classifier calls removable defines silently"}
+		}
+		return nil
+	}
+	var again []job
+	for _, j := range jobs {
+		st.Note("class-program", j.src+j.target, true)
+		if v := judge(res, j, j.on, j.off); v != nil {
+			again = append(again, j)
+		}
+	}
+	if len(again) == 0 {
+		return
+	}
+	var p2 []string
+	for _, j := range again {
+		p2 = append(p2, progs[j.on], progs[j.off])
+	}
+	res2, err := RunNodeScripts(p2, 8000)
+	if err != nil {
+		return
+	}
+	for k, j := range again {
+		if v := judge(res2, j, 2*k, 2*k+1); v != nil {
+			st.Fail(v.what, map[string]interface{}{"files": map[string]string{"m0.js": j.src}, "options": "bundle format=iife target=" + j.target + ", treeShaking true vs false", "bundle": j.bundleOn}, v.got, v.exp)
 		}
 	}
 }
